@@ -1,14 +1,5 @@
 //! tv — verification harness for ExpHP/truth (property-based testing engine; see /verif/DESIGN.md)
-#[macro_use]
-extern crate truth;
-
-mod engine;
-mod model;
-mod gen;
-mod tx;
-mod files;
-mod props;
-
+use tv::{engine, files, gen, props, tx};
 use engine::*;
 use serde_json::{json, Value};
 
